@@ -176,6 +176,12 @@ def gen_case(run_seed: int, index: int, tier: str) -> dict:
     if b == 1 and rng.random() < 0.25 and n * 2 <= 64:
         b = rng.choice([x for x in (2, 3, 4) if (x * n) % bps == 0] or [1])
     B = rng.choice([1, 1, 2, 3, 4, 4, 8])
+    rB = rng.random()
+    if rB < 0.13:
+        # medium-sized batches: just above small powers of two (10 %), hundreds to thousands of rows (3 %); bounded so that a
+        # codebook-vs-batch comparison (2^k x B x n) stays below ~0.5 GB
+        B = rng.randrange(9, 71) if rB < 0.10 else rng.choice([100, 257, 1000, 2100, 2100, 4100])
+        B = min(B, max(12, (1 << 27) // ((1 << min(k, 20)) * n)) - 3)
     if huge:
         b, B = 1, (1 << 24) // (1 << k) + rng.choice([3, 4, 37])
     if wide:
